@@ -111,6 +111,14 @@ def tasks(tier, seed):
                 add({"solver": solver, "table": nm, "mirror": mirror, "res": res}, (solver, tuple(res or ()), nm, mirror))
 
     table_tasks("IGEOS", None)
+    # the 64 states straddling the wave-pattern classification boundaries p* = pl, p* = pr (hydro_more.BND_TABLE) x mirror: a
+    # threshold computed with the wrong side's gamma builds a compressive 'fan' or an expansion shock in a narrow band of closing
+    # speeds that no K <= 3 lattice around the textbook roots reaches (seeded changes S2-C07-1, S3-C04-2)
+    for nm in hm.BND_TABLE:
+        for mirror in (False, True):
+            add({"solver": "IGEOS", "table": nm, "mirror": mirror, "res": None}, ("IGEOS", (), nm, mirror))
+            if tier == "thorough" or ("|ul0|" in nm + "|" and "gl1.4|gr1.4" not in nm and not mirror):
+                add({"solver": "GenEOS", "table": nm, "mirror": mirror, "res": RES_QUICK}, ("GenEOS", tuple(RES_QUICK), nm, mirror))
     lattice_tasks("IGEOS", K_IGEOS[tier], None)
     table_tasks("GenEOS", RES_QUICK)
     lattice_tasks("GenEOS", K_GEN[tier], RES_QUICK)
